@@ -121,6 +121,13 @@ pub fn generate(g: &mut G, index: u64) -> Scenario {
     if g.chance(1, 4) {
         spec.on_start.push(Work::Subscribe(1));
     }
+    if g.chance(1, 6) {
+        // a stream-attached actor whose stream never ends: the last drop must end it all the same
+        spec.entry = g.pick(&[Entry::SpawnOnStream, Entry::SpawnOwningOnStream, Entry::BuilderStreamSpawnOwning, Entry::BuilderWithStreamSpawn]);
+        spec.restart = Restart::NonRestartable;
+        let script: Vec<StreamItem> = (0..g.below(4)).map(|_| StreamItem::Item(g.id())).collect();
+        spec.stream = Some(StreamSpec { script, ends: false });
+    }
     let kinds = [HKind::Addr, HKind::Sender, HKind::Caller, HKind::WeakAddr, HKind::WeakSender, HKind::WeakCaller];
     let nclients = g.range(1, 3) as usize;
     let mut fam = one_actor(g, spec, nclients, &kinds, (0, 2));
@@ -242,7 +249,9 @@ pub fn check(v: &View) -> Vec<Violation> {
             continue; // brokers, default service instances
         }
         let spec = v.sc.spec_of(aidx);
-        if spec.entry.on_stream() || v.fault_injected(a) || !v.stop_requests(aidx).is_empty() {
+        // (a stream-attached actor also ends with its stream: then the census does not apply)
+        let stream_ended = v.out.log.iter().any(|r| matches!(&r.ev, Ev::StreamEnd { aidx: x } if *x == aidx));
+        if stream_ended || v.fault_injected(a) || !v.stop_requests(aidx).is_empty() {
             continue;
         }
         // registry-derived handles have unknown identity; skip actors of scenarios that use them
